@@ -224,6 +224,24 @@ func runC13(c *fw.Case) {
 				c.ViolateD("C13/non-authority-accepted", map[string]string{"msg": label, "authority": authority, "route": "message server"}, "%s with authority %q was accepted by the message server", label, authority)
 			}
 			rejected++
+		case isGov && c.R.Intn(8) == 0 && n.InBlock:
+			// the message server called by code that does not branch the state for it (another
+			// module's handler, a migration): a refused update must not have written anything
+			// by the time it is refused - nobody would discard it
+			c13Unbranched = true
+			gerr := c13DirectServer(n, msg)
+			c13Unbranched = false
+			if p := asPanic(gerr); p != nil {
+				c.ViolateD("C20/gov-update-panic", p.Stack, "%s panicked in the message server: %s", label, short(p.Value, 200))
+				continue
+			}
+			c.Count("message_server_calls_without_state_branch", 1)
+			ok = gerr == nil
+			if ok {
+				accepted++
+			} else {
+				rejected++
+			}
 		default:
 			_, _, gerr := n.GovExec(msg)
 			if p := asPanic(gerr); p != nil {
@@ -601,6 +619,9 @@ func minterStepCost(start time.Time, minters []*minttypes.Minter, until time.Tim
 	return worst
 }
 
+// c13Unbranched makes c13DirectServer run on the block's own context.
+var c13Unbranched bool
+
 // c13DirectServer calls the module's MsgServer implementation directly on a branched
 // deliver-state context; effects are kept iff it succeeds.
 func c13DirectServer(n *chain.Node, msg sdk.Msg) (err error) {
@@ -610,6 +631,10 @@ func c13DirectServer(n *chain.Node, msg sdk.Msg) (err error) {
 		}
 	}()
 	cctx, write := n.Ctx().CacheContext()
+	if c13Unbranched {
+		// the caller does not discard anything: what the server wrote before it refused stays
+		cctx, write = n.Ctx(), func() {}
+	}
 	g := sdk.WrapSDKContext(cctx)
 	switch m := msg.(type) {
 	case *minttypes.MsgUpdateParams:
